@@ -36,7 +36,9 @@ def feats_for(src, dst, rng):
             else:
                 f.update(full_join=False, right_join=False)
     if src == "sqlite":
-        f.update(window=True)
+        # real-valued division chains: SQLite yields NULL for a zero divisor, which the DuckDB text must reproduce
+        # (DuckDB as the source yields inf, which SQLite cannot express: not generated in that direction)
+        f.update(window=True, real_div=0.15)
     if src == dst:
         f.update(div=False)
     return f
